@@ -676,7 +676,7 @@ fn gen_chains(args: &[String]) {
     let mut out = NdjsonOut::create(&arg(args, "--out").unwrap());
     let mut rng = Rng::new(seed ^ 0xC13C);
     // powers of ten far beyond every limit; the neighbourhood of DEREF_LIMIT (128) and of the depth limits (256)
-    let mut lens: Vec<u32> = vec![1, 2, 10, 100, 127, 128, 129, 130, 255, 256, 257, 258, 259, 1000, 10_000];
+    let mut lens: Vec<u32> = vec![1, 2, 10, 100, 127, 128, 129, 130, 255, 256, 257, 258, 259, 1000, 10_000, 20_000, 50_000];
     if thorough {
         lens.push(100_000);
     }
